@@ -40,7 +40,11 @@ Record lb_case := mkLb {
   lb_reads : list lb_read;              (* observed: the peer's successful reads, in order *)
   lb_rerr : bool;                       (* observed: a Read returned an error / did not return while the transports were open *)
   lb_tx : N; lb_rx : N;                 (* observed: writer transport's tx counter, reader transport's rx counter *)
-  lb_htx : list N                       (* observed (datagram): TxBytesCounterValue of handle 1, 2, ... *)
+  lb_htx : list N;                      (* observed (datagram): TxBytesCounterValue of handle 1, 2, ... *)
+  lb_inj : N;                           (* input (datagram): number of malformed datagrams sent on the raw session, never produced by the library
+                                           (shorter than the header / segment index beyond the announced count / a lone segment of a
+                                           longer message, each under a sequence number of its own): none may be handed up *)
+  lb_injb : N                           (* input (datagram): their total size in bytes (the peer's rx counter counts them) *)
 }.
 
 (* ---------- helpers ---------- *)
@@ -154,9 +158,10 @@ Definition lb_ok (c : lb_case) : bool :=
       negb (lb_rerr c) && forallb (read_wf writers) (lb_reads c)
       (* ... and each written message at most once (loss is allowed) *)
       && nodup_pairs (concat (map (fun r => match rd_att r with Some x => [x] | None => [] end) (lb_reads c)))
-      (* counters: the peer cannot have received more datagram bytes than were sent; a handle
-         counts the message bytes written through it *)
-      && (lb_rx c <=? lb_tx c)
+      (* counters: the peer cannot have received more datagram bytes than were sent (by the
+         library and, in hostile cases, on the raw session); a handle counts the message bytes
+         written through it *)
+      && (lb_rx c <=? lb_tx c + lb_injb c)
       && list_beq N N.eqb (lb_htx c) (map (fun ms => sumN (map fst ms) mod two64) (tl writers))
   | k =>
       (* no failed write, no failed read *)
@@ -196,4 +201,4 @@ Definition lb_of_model (ms : list (list N)) : lb_case :=
   let s := q_write_all (mkQtx [] 0) ms in
   let p := parse_all (q_stream s) in
   mkLb LbFramed false false [map lb_desc ms] 0
-       (attribute 0 ms (fst p)) (negb (snd p)) (q_tx s) (q_rx_count (fst p)) [].
+       (attribute 0 ms (fst p)) (negb (snd p)) (q_tx s) (q_rx_count (fst p)) [] 0 0.
